@@ -41,6 +41,12 @@ def check(run):
                                         tag="canonicalisation, %s" % ("with extra trees" if we else "no extra tree"),
                                         note="region: get_match_indexes call .. `all_fun[-nextra:] = [all_fun[f] for f in extra_orig]`; initial_sympify through its elementwise contract")
         wfailed = list(wfailed) + list(f_)
+    # the callee contract the region uses: the local loop of initial_sympify is elementwise (entry k afterwards = print(parse(entry k before)), zoo when the parse raises)
+    for sv in (True, False):
+        st_, f_, _e = D.verify_function(run, "generation/simplifier.py", "initial_sympify", (lambda sv=sv: c_dupcheck.initial_sympify_loop_contract(sv)), timeout_ms=10000,
+                                        tag="local loop, %s" % ("expressions kept" if sv else "strings only"),
+                                        note="region: `p = ESRPrinter()` and the loop over the rank's strings; sympify raises exactly when the string does not parse (a predicate of the string)")
+        wfailed = list(wfailed) + list(f_)
     run.assume("A-sympy: sympify parses fully parenthesised text compositionally (the four parser rules); lambdify evaluates what it is given",
                "tree precondition: arities 0/1/2, children present and after their parent (established by check_tree; bounded in C01)")
     run.trust("pyvc", "z3 5.1.0", "pyvc.symtab")
